@@ -182,6 +182,10 @@ func c11History(r *core.Run, ci int64) {
 			var sess, holder int
 			fmt.Sscanf(q.ID, "s%d-h%d", &sess, &holder)
 			log.add(c11Event{Kind: "srv-query", Conn: id, Sess: sess, Holder: holder, Note: q.Body})
+			// each query carries the pool-wide setting and its own comment, nobody else's
+			if len(q.Settings) != 2 || q.Settings[0].Key != "max_block_size" || q.Settings[0].Value != "1000" || q.Settings[1].Key != "log_comment" || q.Settings[1].Value != q.ID {
+				log.add(c11Event{Kind: "bad-settings", Conn: id, Sess: sess, Holder: holder, Note: fmt.Sprintf("query %s arrived with settings %v", q.ID, q.Settings)})
+			}
 			switch q.Body {
 			case "EXC":
 				return []simnet.Item{{Data: simnet.PacketException([]ref.Exception{{Code: 60, Name: "DB::Exception", Message: "no table"}})}}
@@ -205,7 +209,10 @@ func c11History(r *core.Run, ci int64) {
 		return conn, nil
 	}
 	// wrap Close accounting through a gate: simnet.Conn has no close callback, poll afterwards instead
-	opts := chpool.Options{ClientOptions: ch.Options{Dialer: dialer, ReadTimeout: 300 * time.Millisecond, Address: "sim:9000"}, MaxConns: int32(maxConns), HealthCheckPeriod: time.Hour}
+	// connection-level settings shared by every client of the pool; the slice has spare capacity,
+	// which belongs to the caller
+	baseSettings := append(make([]ch.Setting, 0, 8), ch.SettingInt("max_block_size", 1000))
+	opts := chpool.Options{ClientOptions: ch.Options{Dialer: dialer, ReadTimeout: 300 * time.Millisecond, Address: "sim:9000", Settings: baseSettings}, MaxConns: int32(maxConns), HealthCheckPeriod: time.Hour}
 	switch class {
 	case "destroy-on-release":
 		opts.MaxConnLifetime = time.Nanosecond
@@ -286,7 +293,8 @@ func c11History(r *core.Run, ci int64) {
 								qc()
 								body = "OK"
 							}
-							err := c.Do(qctx, ch.Query{Body: body, QueryID: fmt.Sprintf("s%d-h%d", sess, w)})
+							qid := fmt.Sprintf("s%d-h%d", sess, w)
+							err := c.Do(qctx, ch.Query{Body: body, QueryID: qid, Settings: []ch.Setting{{Key: "log_comment", Value: qid, Important: true}}})
 							qc()
 							if err != nil && !ch.IsException(err) {
 								closed = true
@@ -332,7 +340,8 @@ func c11History(r *core.Run, ci int64) {
 						}
 					case op < 7:
 						qctx, qc := context.WithTimeout(ctx, 3*time.Second)
-						_ = pool.Do(qctx, ch.Query{Body: "OK", QueryID: fmt.Sprintf("s%d-h%d", int(sessCtr.Add(1)), w)})
+						qid := fmt.Sprintf("s%d-h%d", int(sessCtr.Add(1)), w)
+						_ = pool.Do(qctx, ch.Query{Body: "OK", QueryID: qid, Settings: []ch.Setting{{Key: "log_comment", Value: qid, Important: true}}})
 						qc()
 						sig = append(sig, "pool.Do")
 					case op < 8:
@@ -437,6 +446,21 @@ func c11History(r *core.Run, ci int64) {
 			break
 		}
 		lastSess[e.Conn] = e.Sess
+	}
+	// (c2) a holder's query carries only its own settings; the caller's Options.Settings is untouched
+	for _, e := range ev {
+		if e.Kind == "bad-settings" {
+			fail("settings-of-another-holder", e.Note)
+			break
+		}
+	}
+	if spare := baseSettings[:cap(baseSettings)][1:]; true {
+		for _, x := range spare {
+			if x != (ch.Setting{}) {
+				fail("caller-options-modified", fmt.Sprintf("the spare capacity of the caller's Options.Settings was written: %+v", x))
+				break
+			}
+		}
 	}
 	// (d) no session after a release that must destroy
 	destroyed := map[int]int64{}
